@@ -15,7 +15,7 @@
 (* (KnownNeed); the transport may deliver any non-empty part, or nothing   *)
 (* with a nil error a bounded number of times.                             *)
 (***************************************************************************)
-EXTENDS MQTTWire
+EXTENDS WriteRules
 
 VARIABLES wire, limit, fate, with, pos, rp
 
@@ -114,23 +114,4 @@ NeverOverRead == rp.st # "idle" =>
                    LET h == Header(Got) IN h.hdr => rp.got <= h.total
 ConsumedIsGot == rp.st # "idle" => pos = rp.start + rp.got
 DeliveredWithinLimit == pos <= limit /\ limit <= Len(wire)
-
-(***************************************************************************)
-(* Writer side: WriteTo offers the frame to an io.Writer that accepts      *)
-(* everything, or accepts only the first k bytes and reports E.            *)
-(***************************************************************************)
-(* the outcome WriteTo owes: offered = concatenation of all Write calls,    *)
-(* calls = their <<len, accepted, error>> log                               *)
-WriteOutcomeOK(t, offered, calls, n, err, strN) ==
-  IF t = 0 THEN err # "nil" /\ Len(calls) = 0 /\ n = 0
-  ELSE LET nc == Len(calls)
-           accepted == IF nc = 0 THEN 0 ELSE
-                         LET RECURSIVE Sum(_)
-                             Sum(k) == IF k = 0 THEN 0 ELSE calls[k].k + Sum(k - 1)
-                         IN Sum(nc)
-           failed == nc > 0 /\ calls[nc].e # "nil"
-       IN /\ nc >= 1
-          /\ IF failed THEN err = calls[nc].e /\ n = accepted
-             ELSE /\ err = "nil" /\ Framed(offered) /\ n = Len(offered) /\ n = accepted
-                  /\ (strN >= 0 => strN = n)
 =============================================================================
